@@ -50,6 +50,7 @@ func SwarmConfig(r *core.Rand) *Config {
 	c.SlashDoubleSignPct = int64(r.Range(1, 50))
 	c.SlashDowntimePct = int64(r.Range(1, 20))
 	c.RSCALOn = r.Chance(0.5)
+	c.SplitACL = r.Chance(0.5)
 	c.BaseRelaysPerPOKT = int64([]int{200, 20000, 200000}[r.Intn(3)])
 	c.IavlCache = []int64{2, 8, 10000}[r.Intn(3)]
 	c.CtxCache = []int{1, 3, 20}[r.Intn(3)]
